@@ -6,6 +6,7 @@ warnings.simplefilter("ignore")
 import random
 
 import complib
+import ncrlib
 import sexp
 
 ID = "C06"
@@ -27,12 +28,17 @@ RULE = ("one case = (compiler, small generated problem inside the compiler's sup
         "ORIGINAL problem: applicable step by step and goal-reaching by the real simulator (re-judged by the real "
         "SequentialPlanValidator before a failure is reported), trajectory constraints by their PDDL3 semantics over the state "
         "sequence. MODEL CORRESPONDENCE (modelled compilers only): the real compiled problem and the Lean model's are compared as "
-        "sorted lists of action variants (origin action, parameters, sorted preconditions, effects), goals and trajectory constraints; "
+        "sorted lists of action variants (origin action, parameters, sorted preconditions, effects), goals, trajectory constraints and "
+        "the initial values of all ground fluents; "
         "the origin is read off the real map-back of one ground instance per variant (i-th parameter = (i mod n)-th object of its type), "
         "which must also keep the argument tuple (the model's backLifted). "
         "for the Grounder (40 / 400 further grounder-only cases) the real compiler is run with prune_actions True (its default) AND "
         "False and every ground action is compared IN ORDER: name, action and arguments it maps back to (lift_action_instance), "
         "preconditions in order, effects. "
+        "For NegativeConditionsRemover also the quality metrics and WHEN the compiler raises are compared; each round adds one problem "
+        "aimed at it (harness/ncrlib.py: negated equalities over subtypes / numbers, negated comparisons, iff / implies, negation "
+        "under quantifiers and in trajectory constraints, writers of negated fluents, taken fresh names, quality metrics) at bound "
+        "k-1 (every other round in the thorough tier). "
         "Non-trivial = at least one valid compiled plan of length >= 1 was mapped back and judged.")
 ASSUMPTIONS = [
     "validity of a plan = applicable step by step from the initial state and goal-satisfying in the final state according to the real "
@@ -51,9 +57,10 @@ ASSUMPTIONS = [
     "pipelines: a refusal of a later stage on the intermediate problem kind is a skip",
 ]
 MODELLED = [
-    "modelled by hand in Lean (tied by the variant correspondence): " + ", ".join(complib.MODELLED) + " (see Core/Compile/*.lean)",
+    "modelled by hand in Lean (tied by the variant correspondence): " + ", ".join(complib.MODELLED) + " (see Core/Compile/*.lean); "
+    "for NegativeConditionsRemover also WHEN the compiler raises is compared",
     "NOT modelled (no theorem; end-to-end differential only): UsertypeFluentsRemover, TrajectoryConstraintsRemover, "
-    "UndefinedInitialNumericRemover, NegativeConditionsRemover, CompilersPipeline composition on real problems",
+    "UndefinedInitialNumericRemover, CompilersPipeline composition on real problems",
     "Grounder (Core/Compile/Grounder.lean): grounding_actions_map = None, user-typed action parameters, instantaneous actions, no "
     "MinimizeActionCosts metric (ground_minimize_action_costs_metric is outside the model); the cache of GrounderHelper is not "
     "modelled; the simplifier is C11's verified model, configured with the problem's static fluents / initial values when "
@@ -88,23 +95,40 @@ def cases(rng, tier):
             if c is not None:
                 yield c
                 break
-    for _ in range(n):
+    for _i in range(n):
         for comp in complib.COMPILERS:
             for _try in range(400):
                 c = complib.gen_case(rng, comp, depth)
                 if c is not None:
                     yield c
                     break
+        # NegativeConditionsRemover: the shapes its walker cases on (harness/ncrlib.py), at a smaller bound
+        if tier != "quick" and _i % 2:
+            continue
+        for _try in range(50):
+            c = ncrlib.gen_ncr_case(rng, depth - 1)
+            if c is not None:
+                yield c
+                break
 
 
 def model_payload(payload):
     return ["case", payload[1], payload[3]]
 
 
+# the exceptions the model of NegativeConditionsRemover predicts (its `none`): the walker's refusals
+# (negative_conditions_remover.py:111,144,146), Effect.__init__ on the mirrored effect, the assertions of
+# add_trajectory_constraint / bool_constant_value
+NCR_PREDICTED = ("UPExpressionDefinitionError", "UPUsageError", "UPUnboundedVariablesError", "AssertionError")
+
+
 def impl(payload):
     if payload[1] not in complib.MODELLED:
         return ["not-modelled"]
-    return complib.variants(payload)
+    ans = complib.variants(payload)
+    if payload[1] == "ncr" and ans[0] == "raised" and ans[1] in NCR_PREDICTED:
+        return ["raised"]        # compared with the model's answer
+    return ans
 
 
 def _split_hyps(model_ans):
@@ -116,8 +140,9 @@ def _split_hyps(model_ans):
 
 
 def compare(model_ans, impl_ans):
-    if isinstance(impl_ans, list) and impl_ans and impl_ans[0] in ("raised", "skip"):
-        # the real compiler raised (C08's subject) or the case is outside the supported kind: nothing to compare
+    if isinstance(impl_ans, list) and impl_ans and (impl_ans[0] == "skip" or impl_ans[0] == "raised" and len(impl_ans) > 1):
+        # the real compiler raised an exception the model does not predict (C08's subject) or the case is outside the
+        # supported kind: nothing to compare
         return True
     return _split_hyps(model_ans)[0] == impl_ans
 
@@ -170,7 +195,7 @@ def shrink(payload):
     yield from complib.shrink_case(payload)
 
 
-EXTRA_PROPS = ["UPVerif.Props.C06Lift", "UPVerif.Props.C06Ground", "UPVerif.Props.C06BTQR"]
+EXTRA_PROPS = ["UPVerif.Props.C06Lift", "UPVerif.Props.C06Ground", "UPVerif.Props.C06BTQR", "UPVerif.Props.C06NCR"]
 
 MANIFEST = {
     "level_text": ("Lean 4 theorems (Props/C06.lean): a generic forward-simulation theorem over abstract transition systems "
